@@ -191,3 +191,30 @@ def extra_c20(pid, tier, seed, workdir, driver, lib):
 PROPS["C12"]["extra"] = extra_c12
 PROPS["C13"]["extra"] = extra_c13
 PROPS["C20"]["extra"] = extra_c20
+
+
+def extra_c11(pid, tier, seed, workdir, driver, lib):
+    """GC soak: pointer-bearing components moved/grown/shrunk/reset under an aggressive collector"""
+    harness = lib.build_harness(("verif",))
+    rounds = 60 if tier == "quick" else 600
+    env = dict(os.environ, GOTRACEBACK="single", GOGC="1")
+    viol = []
+    info = {"gc_soak_rounds": 0}
+    for i in range(2 if tier == "quick" else 5):
+        try:
+            p = subprocess.run([harness, "-mode", "gcsoak", "-seed", str(seed * 7 + i), "-nseq", str(rounds)], capture_output=True, timeout=900, env=env)
+            out, err, rc = p.stdout.decode(errors="replace"), p.stderr.decode(errors="replace"), p.returncode
+        except subprocess.TimeoutExpired:
+            out, err, rc = "", "timeout", 124
+        info["gc_soak_rounds"] += rounds
+        info["gc_soak_last"] = out.strip().splitlines()[-1:] if out.strip() else []
+        if rc != 0:
+            viol.append({"property": pid, "kind": "gc-soak", "what": "pointer-bearing components lost their data, or data of removed components was not collected: " + (out[-600:] + err[-800:]),
+                         "ops": ["harness -mode gcsoak -seed %d -nseq %d" % (seed * 7 + i, rounds)], "observed_impl": (out + err).splitlines()[-20:],
+                         "expected_model": ["ok …"], "facets": [], "tags": ["verif"], "no_ops_replay": True})
+            break
+    info["violations"] = viol
+    return info
+
+
+PROPS["C11"]["extra"] = extra_c11
